@@ -60,12 +60,14 @@ func (rm *relayManager) GetUseRelays() bool {
 // stage 0 handshake packet for vpnIp through it.
 func (rm *relayManager) StartRelays(f *Interface, vpnIp netip.Addr, hh *HandshakeHostInfo, stage0 []byte) {
 	hostinfo := hh.hostinfo
-	if !rm.GetUseRelays() || len(hostinfo.remotes.relays) == 0 {
+	// The RemoteList is shared with the lighthouse cache and every other user of this peer's addresses, a Rebuild
+	// on another goroutine rewrites relays in place, so work on a locked copy.
+	relays := hostinfo.remotes.CopyRelays()
+	if !rm.GetUseRelays() || len(relays) == 0 {
 		hh.lastRelays = nil
 		return
 	}
 
-	relays := hostinfo.remotes.relays
 	listLevel := slog.LevelDebug
 	prior := hh.lastRelays
 	if !slices.Equal(relays, prior) {
